@@ -98,7 +98,8 @@ fn main() {
             let tier = if args.get(4).map(|s| s.as_str()) == Some("thorough") { Tier::Thorough } else { Tier::Quick };
             match registry(&id) {
                 Some(c) => {
-                    let scn = c.generate(seed, index, tier);
+                    let mut scn = c.generate(seed, index, tier);
+                    gen::fix_point_goals(&mut scn);
                     let t = std::time::Instant::now();
                     let rep = c.evaluate(&scn);
                     env.say(&serde_json::to_string_pretty(&scn).unwrap());
